@@ -3,10 +3,15 @@
     position arithmetic of [pos_for]; that [compile] accepts exactly what the real ANTLR parser
     accepts, with the same tree, is the correspondence run.  The parser's fuel suffices on
     every input ([C01_fuel_sufficient]), so [compile] has two outcomes only and a rejection
-    is the grammar's.  Not proved: a derivation relation for the grammar ([C01_accept_sound]). *)
+    is the grammar's.  What [compile] accepts is derivable from the start rule of CEL.g4 stated
+    as a derivation relation over tokens (Model/Grammar.v; [C01_accept_sound]), and every
+    derivable token list has balanced brackets of each kind and ends in a closing token
+    ([C01_accepted_shape]): unbalanced or dangling texts are never accepted.  Not proved:
+    completeness for the whole grammar (C04 proves it for the operator grammar). *)
 From Coq Require Import String Ascii.
 From Cel.Model Require Import Parser Position.
-From Cel.Proofs Require Import ParserProofs ParserTotal.
+From Cel.Model Require Import Grammar.
+From Cel.Proofs Require Import ParserProofs ParserTotal ParserSound GrammarProps.
 
 (** The fuel [compile] gives its parser (16 * (tokens + 2)) is enough for every token list
     and every source text: the out-of-fuel answer never occurs. *)
@@ -20,6 +25,23 @@ Theorem C01_total : forall src,
 Proof.
   intros src. pose proof (compile_never_out_of_fuel src) as H.
   destruct (compile src); eauto. now elim H.
+Qed.
+
+(** Accepted texts are complete CEL expressions: the whole token list is derivable from
+    [start : expr EOF] of the grammar. *)
+Theorem C01_accept_sound : forall src e,
+  compile src = CExpr e -> exists ts, lex src = Some ts /\ Gstart ts.
+Proof. exact compile_sound. Qed.
+
+(** ... and therefore never an unbalanced bracket, a dangling operator or nothing at all: in
+    every accepted text each kind of bracket opens as often as it closes, and the last token
+    is a closing bracket, an identifier or a literal. *)
+Theorem C01_accepted_shape : forall src e,
+  compile src = CExpr e ->
+  exists ts, lex src = Some ts /\ balanced ts /\ ends ts /\ ts <> [].
+Proof.
+  intros src e H. apply compile_sound in H as (ts & L & G). exists ts. split; [exact L|].
+  now apply derivable_shape.
 Qed.
 
 (** The position computed for a byte offset (SourceInfo::pos_for, used for macro errors)
@@ -48,6 +70,11 @@ Proof. exact scan_short_unterminated. Qed.
 
 Example C01_ex_accept : exists e, compile $"1 + 2" = CExpr e.
 Proof. eexists. vm_compute. reflexivity. Qed.
+Example C01_ex_derivable : Gstart [TInt $"1"; TPlus; TInt $"2"].
+Proof.
+  destruct (C01_accept_sound $"1 + 2" _ ltac:(vm_compute; reflexivity)) as (ts & L & G).
+  vm_compute in L. now injection L as <-.
+Qed.
 Example C01_ex_dangling : compile $"1 +" = CReject.
 Proof. vm_compute. reflexivity. Qed.
 Example C01_ex_unbalanced : compile $"(1 + 2" = CReject /\ compile $"f(1,)" = CReject.
@@ -59,6 +86,8 @@ Proof. split; vm_compute; reflexivity. Qed.
 
 Print Assumptions C01_fuel_sufficient.
 Print Assumptions C01_total.
+Print Assumptions C01_accept_sound.
+Print Assumptions C01_accepted_shape.
 Print Assumptions C01_pos_in_source.
 Print Assumptions C01_unknown_char_rejected.
 Print Assumptions C01_unterminated_literal_rejected.
